@@ -153,7 +153,7 @@ def check(prop: str, tier: str, seed: int, nshards: int = 16, scale: float = 1.0
                 d["slowest_s"] = v["slowest_s"]
                 if "slowest_case" in v:
                     d["slowest_case"] = v["slowest_case"]
-            for key in ("timeouts", "fuzz_execs", "fuzz_raw_findings"):
+            for key in ("timeouts", "fuzz_execs", "fuzz_raw_findings", "fuzz_nontrivial"):
                 if key in v:
                     d[key] = d.get(key, 0) + v[key]
             if "fuzz" in v:  # a campaign that was skipped or cut short says so
